@@ -144,7 +144,7 @@ type input struct {
 
 var cliCalls int
 
-func viaCLI(r *ev.Run, text string, terr error, in input) {
+func viaCLI(r *ev.Run, text string, terr error, in input, class string) {
 	t, err := cli.Get()
 	if err != nil {
 		ev.Fatal("%v", err)
@@ -170,12 +170,12 @@ func viaCLI(r *ev.Run, text string, terr error, in input) {
 		}
 		switch {
 		case res.Code == 0 || res.Announced:
-			r.Report("", fmt.Sprintf("Spec.LALRParsingTable reports %q but the emerge binary exits with status %d (success announced: %v)\n%s", head(terr.Error()), res.Code, res.Announced, text), in)
+			r.Report(class, fmt.Sprintf("Spec.LALRParsingTable reports %q but the emerge binary exits with status %d (success announced: %v)\n%s", head(terr.Error()), res.Code, res.Announced, text), in)
 		case !strings.Contains(res.Stderr, longest):
 			r.Report("", fmt.Sprintf("Spec.LALRParsingTable reports %q; the emerge binary exits with status %d but its stderr does not carry the report: %q\n%s", head(terr.Error()), res.Code, head(cli.StripEmoji(res.Stderr)), text), in)
 		}
 	case res.Code != 0 || !res.Announced || len(res.Files) != 6:
-		r.Report("", fmt.Sprintf("Spec.LALRParsingTable builds a table but the emerge binary exits with status %d (success announced: %v, files %v): %q\n%s", res.Code, res.Announced, res.Files, head(cli.StripEmoji(res.Stderr)), text), in)
+		r.Report(class, fmt.Sprintf("Spec.LALRParsingTable builds a table but the emerge binary exits with status %d (success announced: %v, files %v): %q\n%s", res.Code, res.Announced, res.Files, head(cli.StripEmoji(res.Stderr)), text), in)
 	}
 }
 
@@ -253,10 +253,6 @@ func checkGrammar(r *ev.Run, g *gram, family string, n int, extra [][]string, ex
 	}
 	// observation at the command line: the tool must end the way the library does - a table error (conflict report)
 	// means a non-zero exit status with the report on stderr, a table means the package is announced
-	cliCalls++
-	if !r.Quick() || cliCalls%4 == 0 {
-		viaCLI(r, text, terr, in)
-	}
 	ref := lrref.New("start", g.prods, g.levels).Build()
 	conflict := len(ref.Conflicts) > 0
 	// Known-finding predicate "dep-lalr-superset-state": the dependency's LALR(1) builder resolves the target of a
@@ -267,6 +263,19 @@ func checkGrammar(r *ev.Run, g *gram, family string, n int, extra [][]string, ex
 	if nested, _ := ref.NestedKernels(); nested {
 		class = "dep-lalr-superset-state"
 		r.Add("grammars_with_nested_kernels", 1)
+	}
+	// Known-finding predicate "dep-lalr-nonproductive-order": for a grammar with a non-terminal that derives no terminal
+	// string the dependency's builder answers with a table in one process and with a conflict report in another (the
+	// order in which it walks its shuffled sets decides; the crash variant is dep-lalr-nonproductive-crash / C15
+	// dep-lalr-crash-depends-on-order). Only such grammars are explained by it.
+	if class == "" && hasNonProductive(g) {
+		class = "dep-lalr-nonproductive-order"
+	}
+	// (for the grammars of that known finding the builder's answer - a table or a conflict report - also depends on the
+	// order in which its shuffled sets are walked, so two processes may disagree: same class)
+	cliCalls++
+	if !r.Quick() || cliCalls%4 == 0 {
+		viaCLI(r, text, terr, in, class)
 	}
 	// Known-finding predicate "dep-lalr-nonproductive-crash": the dependency's table builder dereferences a nil
 	// lookahead set for some grammars in which a non-terminal derives no terminal string; emerge reports the recovered
